@@ -1,7 +1,10 @@
 package props
 
 import (
+	"bufio"
+	"bytes"
 	"fmt"
+	"io"
 	"runtime/debug"
 	"sync/atomic"
 
@@ -152,12 +155,34 @@ func c18HeaderHist(r *core.Run, dictCap, pre, hist int, t [41]int64) {
 			cfg = w0.WriterConfig
 			cfg.DictCap = dictCap
 		}
-		w, err = cfg.NewWriter(&sink)
+		// hist 11 / 12 / 13: no configuration history, but another kind of sink: an io.ByteWriter, a
+		// *bytes.Buffer, a *bufio.Writer (what gxz passes; flushed by the caller after Close)
+		var sinkW io.Writer = &sink
+		var bb bytes.Buffer
+		var bw *bufio.Writer
+		switch hist {
+		case 11:
+			sinkW = &sinkByteBuf{}
+		case 12:
+			sinkW = &bb
+		case 13:
+			bw = bufio.NewWriter(&sink)
+			sinkW = bw
+		}
+		w, err = cfg.NewWriter(sinkW)
 		if err == nil {
 			_, err = w.Write([]byte("x"))
 			if err == nil {
 				err = w.Close()
 			}
+		}
+		switch hist {
+		case 11:
+			sink.b = sinkW.(*sinkByteBuf).b
+		case 12:
+			sink.b = bb.Bytes()
+		case 13:
+			bw.Flush()
 		}
 	})
 	if p != nil {
@@ -177,7 +202,10 @@ func c18HeaderHist(r *core.Run, dictCap, pre, hist int, t [41]int64) {
 	want := c18Want(int64(dictCap), t)
 	if code != want {
 		sig, d := "header wrong-dict-code", fmt.Sprintf("DictCap=%d", dictCap)
-		if hist > 0 {
+		if hist > 10 {
+			sig += " (sink kind)"
+			d += ", sink: " + map[int]string{11: "io.ByteWriter", 12: "*bytes.Buffer", 13: "*bufio.Writer"}[hist]
+		} else if hist > 0 {
 			sig += " (configuration variable reused)"
 			d = fmt.Sprintf("configuration variable: DictCap=%d, %s, then DictCap=%d, NewWriter", pre, map[int]string{1: "Verify()", 2: "NewWriter + Write + Close", 3: "NewWriter + Write + Close, configuration copied back from that writer"}[hist], dictCap)
 		}
@@ -364,6 +392,7 @@ func runC18(r *core.Run) {
 		r.Workers = 4 // memory: each writer allocates DictCap + hash table
 	}
 	r.Parallel(len(caps), "block header dictionary byte", func(i int) { c18Header(r, caps[i], t) })
+	r.Parallel(len(caps)*3, "block header dictionary byte, other kinds of sink", func(i int) { c18HeaderHist(r, caps[i/3], 0, 11+i%3, t) })
 	// configuration product: capacity x match finder x block size x look-ahead size x check x lp
 	var pc []C18Cfg
 	for _, dc := range []int{4096, 6144, 65536, 1 << 20, 0} {
